@@ -163,7 +163,7 @@ type storeUnderTest struct {
 
 func execC14(r *Run) {
 	model := newMapModel()
-	dir, err := os.MkdirTemp("/dev/shm", "qedsim-c14-")
+	dir, err := os.MkdirTemp(scratchBase(), "qedsim-c14-")
 	if err != nil {
 		r.Bug("mkdtemp: %v", err)
 	}
